@@ -21,7 +21,15 @@ RULE = ('sent: Rmcp._send_ipmi_msg through a fake socket for every payload lengt
         'rmcp_ignore_sdu_length, through Rmcp._receive_ipmi_msg; compared with the model and judged by '
         'Spec.Lan.receive.  ASF: Rmcp.ping() datagram against the ASF figure; pongs built from the figure and '
         'their truncations / extensions / byte alterations through _receive_asf_msg.  MD5: the Lean RFC 1321 '
-        'implementation against hashlib on the RFC test suite and every length 0..130.  Distinct by input; '
+        'implementation against hashlib on the RFC test suite and every length 0..130.  Histories: sequences of '
+        'sends through ONE Rmcp and ONE Session object with password (set_auth_type_user and direct attribute), '
+        'authentication type, session id, sequence number, activated flag and the session object itself (none / '
+        'same / new) changed between sends; every datagram is compared with the model and judged by '
+        'Spec.Lan.sentOk over the values configured AT THAT MOMENT (directed: password changed to a different / '
+        'shorter / longer / prefix password under password and MD5 authentication).  Every received-datagram case '
+        'also goes through a long-lived Rmcp object (renewed every 8 datagrams) and a long-lived IpmiMsg, each '
+        'datagram judged on its own by Spec.Lan.receive and compared with a fresh IpmiMsg; directed sequences of '
+        'valid datagrams with shrinking payloads / alternating authentication types.  Distinct by input; '
         'non-trivial = payload or mutation present.')
 ASSUMPTIONS = [
     'model of RmcpMsg/IpmiMsg/AsfMsg (lean/PyIpmi/Model/RmcpWire.lean) is hand-written and tied by this correspondence run; '
@@ -176,12 +184,19 @@ def _probe_empty_variant():
     return 's' if out == 'py:TypeError' else 'i'
 
 
-def judge_send(ctx, drv, case, model=None, verbose=False):
-    out, dg, after, rs = real_send(case)
-    pwb = _pw_bytes(bytes.fromhex(case['pw']['hex']) if case['pw']['kind'] == 'bytes' else case['pw']['text'])
-    sdu = bytes.fromhex(case['sdu'])
-    auth, sid, seq = (case['auth'], case['sid'], case['seq']) if case['sess'] else (0, 0, 0)
-    if not case['sess']:
+def judge_send(ctx, drv, case, model=None, verbose=False, obs=None, report=None):
+    """`obs`: (outcome, datagram, sequence number afterwards, rmcp seq) observed on a long-lived object for the
+    configuration `case` (None: run it on fresh objects); `report`: the case to report (the history)"""
+    out, dg, after, rs = obs if obs is not None else real_send(case)
+    single, case = case, (report if report is not None else case)
+    # a violation that fresh objects with the same configuration do not show is a different defect
+    used = ''
+    if obs is not None and real_send(single)[:3] != (out, dg, after):
+        used = ':on-used-session'
+    pwb = _pw_bytes(bytes.fromhex(single['pw']['hex']) if single['pw']['kind'] == 'bytes' else single['pw']['text'])
+    sdu = bytes.fromhex(single['sdu'])
+    auth, sid, seq = (single['auth'], single['sid'], single['seq']) if single['sess'] else (0, 0, 0)
+    if not single['sess']:
         pwb = b''
     code_s = ('ok %s %d' % (lean.hexs(dg), after)) if out == 'ok' else '%s %d' % (out, after)
     if verbose:
@@ -193,9 +208,9 @@ def judge_send(ctx, drv, case, model=None, verbose=False):
     ctx.count('send:outcome:' + out)
     if not in_domain:
         return
-    seq_exp = next_seq(seq) if (case['sess'] and case['act']) else seq
+    seq_exp = next_seq(seq) if (single['sess'] and single['act']) else seq
     if out != 'ok':
-        ctx.violate('C05:sent:raises:%s' % out, 'sending a %d-byte payload with authentication type %d raises %s'
+        ctx.violate('C05:sent:raises:%s%s' % (out, used), 'sending a %d-byte payload with authentication type %d raises %s'
                     % (len(sdu), auth, out), case, expected='a datagram', observed=out)
         return
     exp = lan_datagram(auth, seq_exp, sid, expected_code(auth, pwb, sid, seq_exp, sdu), sdu, rseq=dg[2] if len(dg) > 2 else 0xff)
@@ -208,7 +223,7 @@ def judge_send(ctx, drv, case, model=None, verbose=False):
         ctx.disagree('oracle-send', case, 'Spec.Lan.sentOk=%s' % lean_ok, 'python figure says %s' % py_ok)
     if lean_ok == '1' and py_ok:
         if after != seq_exp:
-            ctx.violate('C05:sent:sequence-state', 'session sequence number after sending is %d, datagram carries %d'
+            ctx.violate('C05:sent:sequence-state' + used, 'session sequence number after sending is %d, datagram carries %d'
                         % (after, seq_exp), case, expected=seq_exp, observed=after)
         return
     # which clause
@@ -240,13 +255,18 @@ def judge_send(ctx, drv, case, model=None, verbose=False):
             what, sig = 'length byte %s, payload has %d bytes' % (ln, len(sdu)), 'length-byte'
         elif lean.unhex(payload) != sdu:
             what, sig = 'payload changed', 'payload'
-    ctx.violate('C05:sent:' + sig, what, case, expected=lean.hexs(exp), observed=lean.hexs(dg))
+    ctx.violate('C05:sent:' + sig + used, what + (' (on a session object that sent other datagrams before)' if used else ''), case, expected=lean.hexs(exp), observed=lean.hexs(dg))
 
 
-def judge_recv(ctx, drv, case, variant, model=None, verbose=False):
+def judge_recv(ctx, drv, case, variant, model=None, verbose=False, obs=None, report=None):
     dgram = bytes.fromhex(case['dgram']) if case['dgram'] != '-' else b''
     ignore = bool(case['ignore'])
-    out, data = real_recv(ignore, dgram)
+    out, data = obs if obs is not None else real_recv(ignore, dgram)
+    used = ''
+    if report is not None:
+        case = report
+        if real_recv(ignore, dgram) != (out, data):
+            used = ':on-used-interface'
     code_s = out if out != 'ok' else 'ok ' + ('none' if data is None else lean.hexs(data))
     if verbose:
         print('  real: %s' % code_s)
@@ -261,14 +281,14 @@ def judge_recv(ctx, drv, case, variant, model=None, verbose=False):
         want = lean.unhex(spec.split()[1])
         if out != 'ok':
             if len(want) == 0:
-                ctx.violate('C05:receive:empty-payload', 'a valid datagram whose payload is empty is not unwrapped: '
+                ctx.violate('C05:receive:empty-payload' + used, 'a valid datagram whose payload is empty is not unwrapped: '
                             '_receive_ipmi_msg raises %s' % (out[3:] if out.startswith('py:') else out), case,
                             expected='payload of 0 bytes', observed=out)
             else:
-                ctx.violate('C05:receive:rejects-valid:%s' % out, 'a valid datagram is rejected with %s' % out, case,
+                ctx.violate('C05:receive:rejects-valid:%s%s' % (out, used), 'a valid datagram is rejected with %s' % out, case,
                             expected=lean.hexs(want), observed=out)
         elif (data or b'') != want:
-            ctx.violate('C05:receive:payload', 'the unwrapped payload differs from the datagram\'s payload', case,
+            ctx.violate('C05:receive:payload' + used, 'the unwrapped payload differs from the datagram\'s payload', case,
                         expected=lean.hexs(want), observed=lean.hexs(data or b''))
     else:
         if out == 'ok':
@@ -276,7 +296,7 @@ def judge_recv(ctx, drv, case, variant, model=None, verbose=False):
             why = 'short'
             if p != ['none']:
                 why = 'version' if int(p[0]) != 6 else 'class' if int(p[3]) != 7 else 'length'
-            ctx.violate('C05:receive:accepts-bad-%s' % why, 'a datagram with a wrong %s is accepted' % why, case,
+            ctx.violate('C05:receive:accepts-bad-%s%s' % (why, used), 'a datagram with a wrong %s is accepted' % why, case,
                         expected='rejected', observed=code_s)
 
 
@@ -441,6 +461,251 @@ def _pong_cases(rng, tier):
     return out
 
 
+# ----------------------------------------------------------------- histories on long-lived objects
+def _pw_py(pw):
+    return bytes.fromhex(pw['hex']) if pw['kind'] == 'bytes' else pw['text']
+
+
+def run_send_history(steps):
+    """Execute a history on ONE Rmcp and ONE Session object.  Steps (JSON lists):
+      ['creds', user, pw]  session.set_auth_type_user(user, password)   (also selects password authentication)
+      ['pw', pw]           session._auth_password = password            (direct attribute change)
+      ['auth', a] ['sid', v] ['seq', v] ['act', 0|1]                    direct attribute changes
+      ['session', 'none'|'same'|'new']   rmcp._session = None / the session / a new Session configured alike
+      ['send', hex]        rmcp._send_ipmi_msg(payload)
+    Returns [(configuration at that moment as a single-send case, observation)] per send."""
+    from pyipmi.session import Session
+    r = _rmcp()
+    s = Session()
+    r._session = s
+    st = {'sess': 1, 'auth': 0, 'sid': 0, 'seq': 0, 'act': 0, 'pw': {'kind': 'bytes', 'hex': ''}}
+    out = []
+    for op in steps:
+        k = op[0]
+        if k == 'creds':
+            s.set_auth_type_user(op[1], _pw_py(op[2]))
+            st['pw'], st['auth'] = op[2], 4
+        elif k == 'pw':
+            s._auth_password = _pw_py(op[1])
+            st['pw'] = op[1]
+        elif k == 'auth':
+            s.auth_type = op[1]
+            st['auth'] = op[1]
+        elif k == 'sid':
+            s.sid = op[1]
+            st['sid'] = op[1]
+        elif k == 'seq':
+            s.sequence_number = op[1]
+            st['seq'] = op[1]
+        elif k == 'act':
+            s.activated = bool(op[1])
+            st['act'] = op[1]
+        elif k == 'session':
+            if op[1] == 'none':
+                r._session, st['sess'] = None, 0
+            else:
+                if op[1] == 'new':
+                    s = _session(st['auth'], st['sid'], st['seq'], st['act'], _pw_py(st['pw']))
+                r._session, st['sess'] = s, 1
+        elif k == 'send':
+            c1 = dict(st, op='send', sdu=op[1])
+            rs, n0 = r.seq_number, len(r._sock.sent)
+            try:
+                r._send_ipmi_msg(bytes.fromhex(op[1]))
+                o = 'ok'
+            except Exception as e:  # noqa
+                o = _tag(e)
+            after = s.sequence_number if st['sess'] else 0
+            dg = r._sock.sent[-1] if (o == 'ok' and len(r._sock.sent) > n0) else None
+            out.append((c1, (o, dg, after, rs)))
+            if st['sess'] and st['act']:
+                st['seq'] = next_seq(st['seq'])       # what the specification says the next datagram carries
+        else:
+            raise ValueError(op)
+    return out
+
+
+def _sdu(rng, n=None):
+    n = rng.choice((0, 1, 7, 8, 22, rng.randrange(0, 64))) if n is None else n
+    return bytes(rng.randrange(256) for _ in range(n)).hex()
+
+
+def _other_pw(rng, pw):
+    """a password related to `pw`: different same length / shorter prefix / longer extension / other kind"""
+    b = _pw_bytes(_pw_py(pw))
+    r = rng.random()
+    if r < 0.25 and b:
+        nb = bytes((x + rng.randrange(1, 256)) % 256 for x in b)
+    elif r < 0.45 and len(b) > 1:
+        nb = b[:rng.randrange(0, len(b))]
+    elif r < 0.65 and len(b) < 16:
+        nb = b + bytes(rng.randrange(1, 256) for _ in range(rng.randrange(1, 17 - len(b))))
+    else:
+        return _pw(rng)
+    return {'kind': 'bytes', 'hex': nb.hex()}
+
+
+def _gen_send_history(rng, n_sends, directed=None):
+    if directed is not None:
+        auth, how, act = directed
+        pw1 = _pw(rng, rng.randrange(1, 17))
+        steps = [['creds', 'admin', pw1], ['auth', auth], ['sid', _b32(rng)], ['seq', _b32(rng)], ['act', act],
+                 ['send', _sdu(rng)]]
+        for _ in range(n_sends - 1):
+            pw2 = _other_pw(rng, pw1)
+            steps += [['creds', 'admin', pw2], ['auth', auth]] if how == 'creds' else [['pw', pw2]]
+            steps.append(['send', _sdu(rng)])
+            pw1 = pw2
+        return steps
+    pw = _pw(rng)
+    steps = [['creds', rng.choice(('admin', 'user', '')), pw]]
+    auth = rng.choice((0, 2, 4))
+    steps += [['auth', auth], ['sid', _b32(rng)], ['seq', _b32(rng)], ['act', rng.choice((0, 1, 1))]]
+    act = steps[-1][1]
+    for _ in range(n_sends):
+        for what in rng.sample(('creds', 'pw', 'auth', 'sid', 'seq', 'act', 'session', 'nothing', 'nothing'),
+                               rng.randrange(0, 4)):
+            if what == 'creds':
+                pw = _other_pw(rng, pw)
+                steps.append(['creds', 'admin', pw])
+                if rng.random() < 0.7:
+                    steps.append(['auth', auth])
+                else:
+                    auth = 4
+            elif what == 'pw':
+                pw = _other_pw(rng, pw)
+                steps.append(['pw', pw])
+            elif what == 'auth':
+                auth = rng.choice((0, 2, 4))
+                steps.append(['auth', auth])
+            elif what == 'sid':
+                steps.append(['sid', _b32(rng)])
+            elif what == 'seq':
+                steps.append(['seq', rng.choice((0xffffffff, 0xfffffffe, 0, _b32(rng)))])
+            elif what == 'act':
+                act = 1 - act
+                steps.append(['act', act])
+            elif what == 'session':
+                steps.append(['session', rng.choice(('none', 'same', 'new'))])
+        steps.append(['send', _sdu(rng)])
+        if steps[-2][0] == 'session' and steps[-2][1] == 'none' and rng.random() < 0.8:
+            steps.append(['session', 'same'])
+    return steps
+
+
+def _run_send_histories(ctx, drv, rng):
+    quick = ctx.tier == 'quick'
+    hists = []
+    for auth in (4, 2):
+        for how in ('creds', 'pw'):
+            for act in (1, 0):
+                for _ in range(4 if quick else 40):
+                    hists.append(_gen_send_history(rng, rng.choice((2, 3, 4)), directed=(auth, how, act)))
+    for _ in range(120 if quick else 2000):
+        hists.append(_gen_send_history(rng, rng.randrange(2, 7)))
+    recs = []
+    for steps in hists:
+        sends = run_send_history(steps)
+        idx = [i for i, op in enumerate(steps) if op[0] == 'send']
+        for (c1, obs), i in zip(sends, idx):
+            recs.append((c1, obs, {'op': 'send-history', 'steps': steps[:i + 1]}))
+        ctx.count('send-history:histories')
+    models = drv.ask_many([_send_line(c1, obs[3]) for c1, obs, _ in recs])
+    for (c1, obs, rep), m in zip(recs, models):
+        ctx.case(('send-history', repr(rep['steps'])))
+        ctx.count('send-history:auth:%s' % (c1['auth'] if c1['sess'] else 'no-session'))
+        prev = [op[0] for op in rep['steps'][:-1]]
+        last_send = max([i for i, k in enumerate(prev) if k == 'send'] or [-1])
+        for k in set(prev[last_send + 1:]) if last_send >= 0 else ['first-send']:
+            ctx.count('send-history:changed-before-send:' + k)
+        judge_send(ctx, drv, c1, m, obs=obs, report=rep)
+    ctx.sample({'send-history': hists[0]})
+
+
+def _unpack_outcome(msg, pdu):
+    try:
+        d = msg.unpack(pdu)
+    except Exception as e:  # noqa
+        return _tag(e)
+    return 'ok ' + ('none' if d is None else lean.hexs(bytes(bytearray(d))))
+
+
+def run_recv_history(seq):
+    """[(ignore, datagram)] through ONE Rmcp object (and one IpmiMsg per ignore setting); per datagram:
+    (observation of Rmcp._receive_ipmi_msg, long-lived IpmiMsg.unpack outcome, fresh IpmiMsg.unpack outcome)"""
+    from pyipmi.interfaces.rmcp import IpmiMsg
+    r = _rmcp()
+    longm = {0: IpmiMsg(ignore_sdu_length=False), 1: IpmiMsg(ignore_sdu_length=True)}
+    out = []
+    for ig, d in seq:
+        r._sock.queue.clear()
+        r._sock.push(d)
+        try:
+            x = r._receive_ipmi_msg(bool(ig))
+            o = ('ok', None if x is None else bytes(bytearray(x)))
+        except Exception as e:  # noqa
+            o = (_tag(e), None)
+        lm = fm = None
+        if len(d) > 4:
+            lm = _unpack_outcome(longm[ig], d[4:])
+            fm = _unpack_outcome(IpmiMsg(ignore_sdu_length=bool(ig)), d[4:])
+        out.append((o, lm, fm))
+    return out
+
+
+def judge_recv_history(ctx, drv, seq, variant, models=None, verbose=False, only_last=False):
+    """seq: [(ignore, datagram, kind)]; every datagram is judged on its own"""
+    obs = run_recv_history([(ig, d) for ig, d, _ in seq])
+    for k, ((ig, d, kind), (o, lm, fm)) in enumerate(zip(seq, obs)):
+        if only_last and k != len(seq) - 1:
+            continue
+        rep = {'op': 'recv-history', 'dgrams': [[a, lean.hexs(b), c] for a, b, c in seq[:k + 1]]}
+        c1 = {'op': 'recv', 'kind': kind, 'ignore': ig, 'dgram': lean.hexs(d)}
+        if verbose:
+            print(' datagram %d (ignore_sdu_length=%d): %s' % (k + 1, ig, lean.hexs(d)))
+        judge_recv(ctx, drv, c1, variant, models[k] if models else None, verbose, obs=o, report=rep)
+        if lm != fm:
+            ctx.violate('C05:receive:reused-IpmiMsg',
+                        'an IpmiMsg object that unpacked other datagrams before does not unpack like a fresh one',
+                        rep, expected=fm, observed=lm)
+
+
+def _run_recv_histories(ctx, drv, rng, rx, rx_models, variant):
+    CH = 8
+    for k in range(0, len(rx), CH):
+        chunk = rx[k:k + CH]
+        seq = [(c['ignore'], bytes.fromhex(c['dgram']) if c['dgram'] != '-' else b'', c['kind']) for c in chunk]
+        for c in chunk:
+            ctx.case(('recv-history', k, c['ignore'], c['dgram']), nontrivial=True)
+            ctx.count('recv-history:long-lived-rmcp')
+        judge_recv_history(ctx, drv, seq, variant, rx_models[k:k + CH])
+    # directed: valid datagrams with shrinking / growing payloads, alternating authentication types and settings
+    seqs = []
+    for _ in range(40 if ctx.tier == 'quick' else 600):
+        lens = sorted((rng.choice((0, 1, 2, 8, 40, 255, rng.randrange(256))) for _ in range(rng.randrange(2, 6))),
+                      reverse=rng.random() < 0.7)
+        seq = []
+        for n in lens:
+            auth = rng.choice((0, 0, 2, 4, 1))
+            d = lan_datagram(auth, _b32(rng), _b32(rng), bytes(rng.randrange(256) for _ in range(16)),
+                             bytes(rng.randrange(256) for _ in range(n)))
+            r = rng.random()
+            kind = 'seq:valid'
+            if r < 0.15 and len(d) > 5:
+                d, kind = d[:rng.randrange(4, len(d))], 'seq:truncation'
+            elif r < 0.25:
+                d, kind = d + b'\x00', 'seq:extension'
+            seq.append((rng.choice((0, 0, 1)), d, kind))
+        seqs.append(seq)
+    lines = ['recv %s %d %s' % (variant, ig, lean.hexs(d)) for seq in seqs for ig, d, _ in seq]
+    ms = iter(drv.ask_many(lines))
+    for seq in seqs:
+        for ig, d, kind in seq:
+            ctx.case(('recv-seq', tuple((a, b) for a, b, _ in seq), d))
+            ctx.count('recv-history:' + kind)
+        judge_recv_history(ctx, drv, seq, variant, [next(ms) for _ in seq])
+
+
 RFC1321 = [b'', b'a', b'abc', b'message digest', b'abcdefghijklmnopqrstuvwxyz',
            b'ABCDEFGHIJKLMNOPQRSTUVWXYZabcdefghijklmnopqrstuvwxyz0123456789',
            b'1234567890' * 8]
@@ -477,6 +742,7 @@ def run(ctx):
             ctx.count('send:seq-wrap-boundary')
         judge_send(ctx, drv, c, m)
     ctx.sample({'send': cases[300], 'model': models[300][:80]})
+    _run_send_histories(ctx, drv, ctx.rng('c05-send-history'))
     # ---- received datagrams
     variant = _probe_empty_variant()
     ctx.extra['receive_empty_payload_variant'] = 'asShipped' if variant == 's' else 'intended'
@@ -513,6 +779,7 @@ def run(ctx):
         ctx.count('recv:kind:' + c['kind'].split('@')[0])
         judge_recv(ctx, drv, c, variant, m)
     ctx.sample({'recv': rx[5], 'model': models[5]})
+    _run_recv_histories(ctx, drv, ctx.rng('c05-recv-history'), rx, models, variant)
     # ---- ASF
     m = drv.ask('ping 255')
     ctx.case(('ping',))
@@ -541,7 +808,21 @@ def replay(ctx, v):
     drv = ctx.driver('drv_c05')
     c2 = ctx.__class__('C05', 'quick', 0)
     print('case: %s' % {k: (x if len(str(x)) < 100 else str(x)[:100] + '…') for k, x in case.items()})
-    if case['op'] == 'send':
+    if case['op'] == 'send-history':
+        print('one Rmcp and one Session object:')
+        sends = run_send_history(case['steps'])
+        it = iter(sends)
+        for op in case['steps']:
+            print('  %s' % (op,))
+            if op[0] == 'send':
+                c1, obs = next(it)
+                print('  configured at this moment: %s' % {k: c1[k] for k in ('sess', 'auth', 'sid', 'seq', 'act', 'pw')})
+                judge_send(c2, drv, c1, None, verbose=True, obs=obs, report=case)
+    elif case['op'] == 'recv-history':
+        print('one Rmcp object (and one IpmiMsg object), datagrams in this order:')
+        seq = [(ig, lean.unhex(hx), kind) for ig, hx, kind in case['dgrams']]
+        judge_recv_history(c2, drv, seq, _probe_empty_variant(), None, verbose=True, only_last=True)
+    elif case['op'] == 'send':
         judge_send(c2, drv, case, None, verbose=True)
     elif case['op'] == 'recv':
         judge_recv(c2, drv, case, _probe_empty_variant(), None, verbose=True)
